@@ -726,9 +726,27 @@ def m_matrix2(ex, st, args, kwargs, n):
     return r
 
 
+_list_prev = [None]
+
+
+def b_list2(ex, st, args, kwargs, n):
+    # list(terms): a new list with the SAME term objects
+    if len(args) == 1 and isinstance(args[0], Seq):
+        src = args[0]
+        r = Seq(src.n, src.val)
+        r.fresh = False
+        return r
+    if _list_prev[0] is not None:
+        return _list_prev[0](ex, st, args, kwargs, n)
+    raise Unsupported('list(%r)' % (args,))
+
+
 def bin_setup(sc):
     def setup(ex, st, fid, fn):
         addsub_setup({})(ex, st, fid, fn)
+        if L.ext.get('builtins.list') is not b_list2:
+            _list_prev[0] = L.ext.get('builtins.list')
+        L.ext['builtins.list'] = b_list2
         L.ext['cvxopt.modeling._function'] = new_function2
         L.ext['builtins.len'] = b_len2
         L.ext['cvxopt.modeling.matrix'] = m_matrix2
